@@ -240,6 +240,9 @@ class Pool():
             self._pending = 0
             self._pending_per_worker = { worker.id: [] for worker in self.workers }
             self._retries = []
+            for wid in self._closed.intersection(self._queues.keys()):
+                # whatever a worker that died during an earlier run left in its pipe does not belong to this run
+                self._queues.pop(wid).close()
             results_in_flight = set() # workers found dead while enqueueing whose result stream has not been read to its end yet
             ret = []
 
